@@ -123,7 +123,25 @@ def spec(cfg, opts, chk) -> bool | None:
     return chk.enabled or ea
 
 
-def real_eval(cfg, opts, checks):
+_MODULE_CODE: dict = {}
+
+
+def really_loaded(merged) -> set:
+    """(prefix, code) of the checks whose functions load_checks hands to the visitor: what actually runs"""
+    import sys
+    from refurb.loader import get_error_class, load_checks
+    out = set()
+    for fs in load_checks(merged).values():
+        for f in fs:
+            if f.__module__ not in _MODULE_CODE:
+                e = get_error_class(sys.modules[f.__module__])
+                _MODULE_CODE[f.__module__] = (e.prefix, e.code) if e else None
+            if _MODULE_CODE[f.__module__]:
+                out.add(_MODULE_CODE[f.__module__])
+    return out
+
+
+def real_eval(cfg, opts, checks, through_loader: bool = False):
     from refurb.loader import should_load_check
     from refurb.settings import Settings, parse_command_line_args, parse_config_file
     try:
@@ -132,7 +150,13 @@ def real_eval(cfg, opts, checks):
         merged = Settings.merge(cf, cli)
     except ValueError:
         return None
-    return [bool(should_load_check(merged, k)) for k in checks]
+    ans = [bool(should_load_check(merged, k)) for k in checks]
+    if through_loader:
+        loaded = really_loaded(merged)
+        real_eval.loader_says = [(k.prefix, k.code) in loaded for k in checks]
+    else:
+        real_eval.loader_says = None
+    return ans
 
 
 def classify(cfg, opts, code, got, want) -> str:
@@ -212,9 +236,22 @@ def run(ctx: Ctx) -> None:
              "plus sampled longer ones, config-file combinations, and CLI x config merges; non-trivial = at least one selection option; distinct by (config, argv)")
     shards_src = []
     results = []
-    for cfg, opts in cases:
-        real = real_eval(cfg, opts, checks)
+    n_loader = 0
+    loader_budget = ctx.budget(700, 8000)
+    for ci, (cfg, opts) in enumerate(cases):
+        # what the loader really hands to the visitor, for every short case and a sample of the rest
+        through = (len(opts) <= 2 or rng.random() < 0.05) and n_loader < loader_budget
+        real = real_eval(cfg, opts, checks, through)
         results.append(real)
+        if through and real is not None:
+            n_loader += 1
+            ctx.count("selection-through-load_checks")
+            for k, g, l_ in zip(checks, real, real_eval.loader_says):
+                if g != l_:
+                    ctx.report("selection-differs:loader-vs-ladder", f"FURB{k.code} is {'loaded' if l_ else 'not loaded'} by load_checks although should_load_check says {g}: config {toml_of(cfg)!r}, argv {argv_of(opts)}",
+                               {"config": toml_of(cfg), "argv": argv_of(opts), "check": f"FURB{k.code}", "load_checks": l_, "should_load_check": g,
+                                "cmd": "refurb --verbose file.py " + " ".join(argv_of(opts))})
+                    break
         want = [spec(cfg, opts, k) for k in checks]
         key = (toml_of(cfg), tuple(argv_of(opts)))
         ctx.case(key, nontrivial=bool(opts) or any(cfg[k] for k in cfg),
@@ -298,13 +335,13 @@ def e2e(ctx: Ctx, checks, alpha) -> None:
     """--verbose lists exactly the checks that can report, through the real CLI."""
     from refurb.loader import get_error_class, get_modules, should_load_check
     from refurb.settings import load_settings
-    combos = [[], ["--enable-all"], ["--disable-all", "--enable", alpha[0]], ["--disable", alpha[2]],
+    combos = [[], ["--enable-all", "--ignore", alpha[0]], ["--enable-all"], ["--disable-all", "--enable", alpha[0]], ["--enable-all", "--ignore", alpha[2]], ["--disable", alpha[2]],
               ["--disable", alpha[2], "--enable", alpha[0]], ["--enable", alpha[3]], ["--ignore", alpha[0]],
               ["--enable-all", "--disable", alpha[3]], ["--disable-all"]]
     with tempfile.TemporaryDirectory(prefix="c09-") as td:
         f = Path(td) / "t.py"
         f.write_text("x = int(0)\n")
-        for argv in combos[: ctx.budget(5, 9)]:
+        for argv in combos[: ctx.budget(7, 11)]:
             rc, out, err = L.cli([str(f), "--verbose", *argv], cwd=td)
             m = re.search(r"^Enabled checks: (.*)$", out, flags=re.M)
             listed = set(m.group(1).split(", ")) if m else set()
